@@ -16,6 +16,11 @@ restriction of the C03 theorems (closed numeric character references, known defe
 Rung A (`C01_code_block`, `C01_flat_code`): indented code blocks — alone, and as members of documents whose other
 blocks are rules and paragraphs / ATX / Setext headings of words and escapes, in any number and order that `WF` allows.
 
+Rung B (`C01_code_span`): paragraphs, ATX and Setext headings whose content is words, escapes and code spans (any
+number of spans, every fence width and padding `print` can choose), together with rules and code blocks
+(`SpanDoc`).  One case is excluded by the sub-grammar predicate: an escaped backslash directly before a code span
+(`noBsBeforeCode`), which the implementation treats by another alternative of `BACKTICK_RE`; tested equal, not proved.
+
 How it is proved: `C01_chunks`/`C01_leaves` of `Props/C01.lean` are generalised to
 * `Elem`/`ElemOK` (`C01b_render_elems`): one child of the root through inline processor, prettify, unescape, serializer
   — with what it adds to the stash and pushes on the inline processor's stack; the leaves of `Props/C01.lean` and
@@ -91,7 +96,76 @@ theorem C01_flat_code (d : Doc) (sp : Spelling) (hwf : WF d = true) (hflat : Fla
     Pipeline.convert {} (print d sp) = .ok (spec d) :=
   convert_flatCode d sp hwf hflat
 
+/-! ### rung B -/
+
+/-- **Spans: the backtick pattern, one span per turn of the pattern loop.**  Escaped text `U` that does not end with a
+    backslash, then code spans each followed by escaped text (`SegsOK`: a fence the padded body does not close,
+    non-empty text without final backslash between two spans): the pattern loop replaces the spans left to right by
+    placeholders and stashes their `<code>` elements (atomic, escaped, stripped). -/
+theorem C01b_backtick_pass (cfg : Inline.Cfg) (hi : Inline.HI) (hb : '\\' ∈ cfg.esc) (ht : '`' ∈ cfg.esc)
+    (hph : ∀ c ∈ cfg.esc, Escape.phChar c = false) (segs : List SpanSeg) (U : Str) (st : Inline.St) (g : Nat)
+    (hok : SegsOK segs) (hU : segs ≠ [] → U.getLast? ≠ some '\\') :
+    Inline.hiLoop (Inline.applyPattern cfg hi) (g + segs.length) (Escape.escAll cfg.esc U ++ rawSegs cfg.esc segs) 0 0 st =
+      Inline.hiLoop (Inline.applyPattern cfg hi) g (Escape.escAll cfg.esc (U ++ embed st.stash.length segs)) 0 0
+        { st with stash := st.stash ++ spanNodes segs } :=
+  pattern0_pass cfg hi hb ht hph segs U st g hok hU
+
+/-- **Spans: one element through all the stages.**  A `p`/`h1`–`h6` element whose text is escaped text and code spans
+    (`SpanTxtOK`) goes through the inline processor (spans and escapes stashed, `__processPlaceholders` rebuilding
+    text, `<code>` children and tails), prettify, unescape and the serializer as `spanTxtElem` says. -/
+theorem C01b_span_elem (cfg : Inline.Cfg) (hE : EscOK cfg.esc) (hph : ∀ c ∈ cfg.esc, Escape.phChar c = false)
+    (tag t0 : Str) (segs : List SpanSeg) (h : SpanTxtOK cfg.esc tag t0 segs) :
+    ElemOK cfg (spanTxtElem cfg.esc tag t0 segs) :=
+  spanTxtElem_ok cfg hE hph tag t0 segs h
+
+/-- **Spans: the block stage.**  Content `X` that `RawOK` describes (one line, visible at both ends, starting with no
+    block marker, walkable by the lazy header group) is taken as paragraph text, Setext heading text and ATX heading
+    text; a line of escaped text and code spans is such content. -/
+theorem C01b_span_line (esc : List Char) (hE : EscOK esc) (t0 : Str) (segs : List SpanSeg) (h : LineOK t0 segs) :
+    RawOK (Escape.escAll esc t0 ++ rawSegs esc segs) :=
+  rawOK_line hE t0 segs h
+
+/-- **Rung B.**  `d` well-formed, every block a rule, an indented code block without `<`, or a paragraph / ATX heading /
+    Setext heading of words, escapes and code spans without `<` (no escaped backslash directly before a span):
+    under EVERY spelling — fence widths and paddings of the spans included — the converter returns `spec d`. -/
+theorem C01_code_span (d : Doc) (sp : Spelling) (hwf : WF d = true) (hs : DocSpec.SpanDoc d = true) :
+    Pipeline.convert {} (print d sp) = .ok (spec d) :=
+  convert_spanDoc d sp hwf hs
+
 /-! ### the hypotheses are satisfiable; instances evaluated by the kernel -/
+
+/-- headings and paragraphs with several spans, spans next to escapes, a body of two backticks, a body that is a
+    backslash, digits before a span, a code block in between -/
+def sampleSpan : Doc :=
+  [.atx 2 [.text (S "Use "), .code (S "a*b"), .text (S " and "), .esc '#'],
+   .para [.code (S "`x` &amp; tt"), .text (S " then "), .esc '*', .code (S "\\"), .esc '_', .text (S " end")],
+   .code [S "raw `code`"],
+   .setext 1 [.text (S "T "), .code (S "``")],
+   .para [.text (S "2024 "), .code (S "1.")]]
+
+example : WF sampleSpan = true ∧ DocSpec.SpanDoc sampleSpan = true := by decide
+
+example : print sampleSpan ⟨[1, 2, 0, 1, 3, 2, 1, 1, 5, 2, 2, 7]⟩ =
+    ("## Use ```a*b``` and \\# #\n\n``` `x` &amp; tt ``` then \\*`\\`\\_ end\n\n    raw `code`\n\n  T ``` `` ```\n==\n\n" ++
+     " 2024 ```1.```").toList := by decide +kernel
+
+example : spec sampleSpan =
+    ("<h2>Use <code>a*b</code> and #</h2>\n<p><code>`x` &amp;amp; tt</code> then *<code>\\</code>_ end</p>\n" ++
+     "<pre><code>raw `code`\n</code></pre>\n<h1>T <code>``</code></h1>\n<p>2024 <code>1.</code></p>").toList := by
+  decide +kernel
+
+example : Pipeline.convert {} (print sampleSpan ⟨[1, 2, 0, 1, 3, 2, 1, 1, 5, 2, 2, 7]⟩) = .ok (spec sampleSpan) :=
+  C01_code_span _ _ (by decide) (by decide)
+
+example : Pipeline.convert {} (print sampleSpan ⟨[1, 2, 0, 1, 3, 2, 1, 1, 5, 2, 2, 7]⟩) = .ok (spec sampleSpan) := by
+  decide +kernel
+
+/-- the excluded case: an escaped backslash directly before a span is outside `SpanDoc` (the converter is right there
+    too, by the kernel on the model) -/
+example : DocSpec.SpanDoc [.para [.esc '\\', .code (S "x")]] = false ∧
+    Pipeline.convert {} (print [.para [.esc '\\', .code (S "x")]] ⟨[]⟩) =
+      .ok (spec [.para [.esc '\\', .code (S "x")]]) := by decide +kernel
+
 
 /-- a document with code blocks between the other kinds of block; Markdown, entities and blank lines inside the code -/
 def sampleCode : Doc :=
